@@ -171,6 +171,22 @@ inductive TallyStep where
 			valLoop = n.(*ast.RangeStmt)
 		}
 		inVal := func(n ast.Node) bool { return valLoop != nil && n.Pos() >= valLoop.Pos() && n.End() <= valLoop.End() }
+		// a statement that is executed for every voter whose validator is bonded: a direct child of an
+		// `if val, ok := currValidators[valAddrStr]; ok { … }` block (not under a further condition)
+		directlyUnderBondedCheck := func(st ast.Stmt) bool {
+			return c15Find(tl.Body, func(n ast.Node) bool {
+				is, ok := n.(*ast.IfStmt)
+				if !ok || is.Init == nil || squash(c.src(is.Init)) != "val, ok := currValidators[valAddrStr]" || c.src(is.Cond) != "ok" {
+					return false
+				}
+				for _, x := range is.Body.List {
+					if x == st {
+						return true
+					}
+				}
+				return false
+			}) != nil
+		}
 		for _, n := range c15All(tl.Body, func(n ast.Node) bool { _, ok := n.(*ast.AssignStmt); return ok }) {
 			as := n.(*ast.AssignStmt)
 			if len(as.Lhs) != 1 || len(as.Rhs) != 1 {
@@ -189,9 +205,9 @@ inductive TallyStep where
 			case l == "subPower":
 				subDel = r
 			case l == "val.DelegatorDeductions" && r == "val.DelegatorDeductions.Add(delegation.GetShares())":
-				deducts = true
+				deducts = directlyUnderBondedCheck(as)
 			case l == "val.Vote" && r == "vote.Options":
-				recorded = true
+				recorded = directlyUnderBondedCheck(as)
 			case l == "totalVotingPower" && r == "totalVotingPower.Add(votingPower)":
 				addsTotal++
 			case l == "results[option.Option]" && r == "results[option.Option].Add(subPower)":
